@@ -53,6 +53,7 @@ def check(run):
         posts = [f.site for f in handlers.flows_in(fx, fr_) if f.dest == 'post']
         rets = [r for r in q.returns(fr_) if r.get('e') is not None]
         return bool(rets) and bool(posts) and all((q.int_value(r['e']) == 1 and q.any_precedes(fr_, posts, r)) or (q.int_value(r['e']) == 0 and not q.any_precedes(fr_, posts, r)) for r in rets)
+    cancel_dequeues_rule(run)
     for r in q.returns(cn):
         v = q.int_value(r.get('e'))
         e0 = q.strip_casts(r.get('e'))
@@ -248,6 +249,20 @@ def sortedness_rules(run):
     pb = [c for c in at.calls() if (c.get('callee') or '').split('::')[-1] in ('push_back', 'emplace_back', 'push_front') and q.render(at, c.get('obj')) == 'm_timer_queue']
     run.check(not pb, 'R4', 'sorted-insert-only', S + '::add_timer', at.loc(), 'the timer queue is appended to without sorting', 'only the sorted insert mutates the queue')
 
+
+
+def cancel_dequeues_rule(run):
+    """A timer that is queued (m_expired == false) is taken off the simulation's queue by cancel() on EVERY path, whether
+    or not a handler is waiting: the destructor and re-arm rely on it, otherwise the queue keeps a raw pointer to a
+    destroyed timer (shared with C12)."""
+    fx = run.fx
+    cn = fx.fn1(T + '::cancel')
+    run.touch(cn)
+    removes = [c for c in _calls(cn, 'io_context::remove_timer') if c.get('args') and q.is_this(c['args'][0])]
+    queued = lambda atom: {'m_expired': False}.get(q.render(cn, q.strip_casts(atom)))
+    run.check(bool(removes) and not q.exit_reachable_under(cn, None, removes, queued), 'R4', 'cancel-dequeues-when-queued', T + '::cancel', cn.loc(),
+              'with the timer queued (m_expired false) a path through cancel() returns without remove_timer(this) - e.g. when no handler is waiting: a timer that was armed but never waited on stays in the queue after it is destroyed, and run() later dereferences the dangling pointer',
+              'every path with m_expired false passes remove_timer(this)')
 
 
 def fire_posts_rule(run):
